@@ -20,6 +20,7 @@ pub type Label = usize;
 
 //@include prelude/tree_spec.rs
 //@include prelude/iter_spec.rs
+//@include prelude/count_spec.rs
 //@include prelude/tree_helpers.rs
 
 pub assume_specification<T, const N: usize>[ <VecDeque<T> as core::convert::From<[T; N]>>::from ](a: [T; N]) -> (r: VecDeque<T>)
@@ -50,11 +51,16 @@ impl<N, const K: usize> Tree<N, K> {
 // rule T1: methods of `impl TraversalMut for X` are verified as inherent methods of X
 impl DfsPre {
 //@fn src/tree/iter.rs | impl TraversalMut for DfsPre | new
+//@bodysub DfsPre { stack: => let __r = DfsPre { stack:
+//@bodysub size_ub: tree.len(), } => size_ub: tree.len(), }; /*HINT-BEGIN*/proof { if tree.wf() && tree.arena@.dom().contains(root) { assert forall|h: Map<usize, nat>| #[trigger] ranked_down(tree.arena@, h) implies size_ok(tree.arena@, h, __r.stack@, __r.size_lb, __r.size_ub) by { lemma_new_size(tree.arena@, tree.root, h, root); assert(__r.stack@ =~= seq![DfsNodeData { depth: 0, index: root, n_remaining: 0 }]); assert(__r.size_ub == tree.arena@.dom().len()); assert(tree.root == Some(root) ==> __r.size_lb == tree.arena@.dom().len()); assert(tree.root != Some(root) ==> __r.size_lb == 0); } } }/*HINT-END*/ __r
 //@spec
     requires tree.root is Some
     ensures
         r.stack@ == seq![DfsNodeData { depth: 0, index: root, n_remaining: 0 }],
         r.last_push == 0,
+        // the initial bounds bracket the number of items to come: exactly the tree size when started at the root (the pre-order lists every node
+        // once: lemma_pre_count), between 0 and the tree size otherwise
+        tree.wf() && tree.arena@.dom().contains(root) ==> forall|h: Map<usize, nat>| #[trigger] ranked_down(tree.arena@, h) ==> size_ok(tree.arena@, h, r.stack@, r.size_lb, r.size_ub),
 //@end
 
 //@fn src/tree/iter.rs | impl TraversalMut for DfsPre | next
